@@ -1,36 +1,77 @@
 package rest
 
-// White-box executor for C04 (rest engine: which timeout a route gets), injected
-// with `go test -overlay`.
+// White-box executor for C04 (rest engine: which timeout a route runs under),
+// injected with `go test -overlay` together with a copy of harness/cmd/c04/restctl.go
+// (package clause rewritten).
+//
+// Every case builds a REAL rest.Server (NewServer + AddRoutes with the route options
+// WithTimeout / WithSSE per group), binds the routes to its router (what Start does
+// before listening) and drives several requests through that ONE router under a
+// completely forced order of events (runSeqCore).  It also applies the engine's
+// withTimeout() start option to an http.Server value and reports Read/WriteTimeout.
 
 import (
 	"bufio"
-	"context"
 	"encoding/json"
+	"fmt"
 	"net/http"
-	"net/http/httptest"
 	"os"
 	"testing"
 	"time"
 
+	"github.com/zeromicro/go-zero/core/conf"
 	"github.com/zeromicro/go-zero/core/logx"
-	"github.com/zeromicro/go-zero/rest/router"
 )
 
-type verifEngineCase struct {
-	ID       int    `json:"id"`
-	RouteNs  int64  `json:"route_ns"` // WithTimeout(route_ns) when != 0
-	ConfMs   int64  `json:"conf_ms"`
-	ParentNs *int64 `json:"parent_ns"`
-}
-
-type verifEngineOut struct {
-	ID       int    `json:"id"`
-	HasDl    bool   `json:"has_dl"`
-	DlSeenNs int64  `json:"dl_seen_ns"`
-	T1Ns     int64  `json:"t1_ns"`
-	Status   int    `json:"status"`
-	Err      string `json:"err,omitempty"`
+func verifC04Server(c SeqCase, work http.HandlerFunc, out *SeqOut) (http.Handler, func(int) string, error) {
+	var cnf RestConf
+	if err := conf.FillDefault(&cnf); err != nil {
+		return nil, nil, err
+	}
+	cnf.Name = "verif"
+	cnf.Timeout = c.ConfMs
+	cnf.Middlewares.Trace = false
+	cnf.Middlewares.Log = false
+	cnf.Middlewares.Prometheus = false
+	cnf.Middlewares.MaxConns = false
+	cnf.Middlewares.Breaker = false
+	cnf.Middlewares.Shedding = false
+	cnf.Middlewares.Timeout = c.MwTo
+	cnf.Middlewares.Recover = false
+	cnf.Middlewares.Metrics = c.Inner
+	cnf.Middlewares.MaxBytes = c.Inner
+	cnf.Middlewares.Gunzip = c.Inner
+	srv, err := NewServer(cnf)
+	logx.Disable()
+	if err != nil {
+		return nil, nil, err
+	}
+	for gi, g := range c.Groups {
+		var routes []Route
+		for j := 0; j < g.N; j++ {
+			routes = append(routes, Route{Method: http.MethodGet, Path: fmt.Sprintf("/g%d/r%d", gi, j), Handler: work})
+		}
+		var opts []RouteOption
+		for _, o := range g.Opts {
+			switch o[0].(string) {
+			case "timeout":
+				opts = append(opts, WithTimeout(time.Duration(int64(o[1].(float64)))))
+			case "sse":
+				opts = append(opts, WithSSE())
+			}
+		}
+		srv.AddRoutes(routes, opts...)
+	}
+	if err := srv.ngin.bindRoutes(srv.router); err != nil {
+		return nil, nil, err
+	}
+	hs := &http.Server{}
+	srv.ngin.withTimeout()(hs)
+	out.ReadNs, out.WriteNs, out.EngNs = int64(hs.ReadTimeout), int64(hs.WriteTimeout), int64(srv.ngin.timeout)
+	target := func(i int) string {
+		return fmt.Sprintf("/g%d/r%d", c.Reqs[i].Group, c.Reqs[i].Route)
+	}
+	return srv.router, target, nil
 }
 
 func TestVerifC04(t *testing.T) {
@@ -39,7 +80,7 @@ func TestVerifC04(t *testing.T) {
 		t.Skip("no VERIF_IN")
 	}
 	logx.Disable()
-	var cases []verifEngineCase
+	var cases []SeqCase
 	if err := json.Unmarshal(data, &cases); err != nil {
 		t.Fatal(err)
 	}
@@ -51,48 +92,11 @@ func TestVerifC04(t *testing.T) {
 	w := bufio.NewWriter(f)
 	defer w.Flush()
 	for _, c := range cases {
-		out := verifEngineOut{ID: c.ID}
-		var conf RestConf
-		conf.Name = "verif"
-		conf.Timeout = c.ConfMs
-		conf.Middlewares.Timeout = true
-		conf.Middlewares.Recover = true
-		ng := newEngine(conf)
-		var tA time.Time
-		fr := featuredRoutes{routes: []Route{{
-			Method: http.MethodGet,
-			Path:   "/x",
-			Handler: func(w http.ResponseWriter, r *http.Request) {
-				t1 := time.Now()
-				dl, ok := r.Context().Deadline()
-				out.HasDl = ok
-				if ok {
-					out.DlSeenNs = int64(dl.Sub(tA))
-				}
-				out.T1Ns = int64(t1.Sub(tA))
-				w.WriteHeader(http.StatusNoContent)
-			},
-		}}}
-		if c.RouteNs != 0 {
-			WithTimeout(time.Duration(c.RouteNs))(&fr)
-		}
-		ng.addRoutes(fr)
-		rt := router.NewRouter()
-		if err := ng.bindRoutes(rt); err != nil {
-			out.Err = err.Error()
-		} else {
-			tA = time.Now()
-			parent := context.Background()
-			cancel := context.CancelFunc(func() {})
-			if c.ParentNs != nil {
-				parent, cancel = context.WithDeadline(parent, tA.Add(time.Duration(*c.ParentNs)))
-			}
-			req := httptest.NewRequest(http.MethodGet, "/x", http.NoBody).WithContext(parent)
-			rec := httptest.NewRecorder()
-			rt.ServeHTTP(rec, req)
-			cancel()
-			out.Status = rec.Code
-		}
+		var srvOut SeqOut
+		out := runSeqCore(c, func(work http.HandlerFunc) (http.Handler, func(int) string, error) {
+			return verifC04Server(c, work, &srvOut)
+		})
+		out.ReadNs, out.WriteNs, out.EngNs = srvOut.ReadNs, srvOut.WriteNs, srvOut.EngNs
 		b, _ := json.Marshal(out)
 		w.Write(b)
 		w.WriteByte('\n')
